@@ -92,3 +92,14 @@ Definition spec_sm_body (f : sm_wire) : list Z :=
 (* 3GPP TS 23.040 9.2.3.24.1 / .8: concatenation information elements in the user data header *)
 Definition udh_concat8 (ref total seq : Z) : list Z := [5; 0; 3; ref; total; seq].
 Definition udh_concat16 (ref total seq : Z) : list Z := [6; 8; 4; ref / 256; ref mod 256; total; seq].
+
+(* ---- the general User Data Header of 3GPP TS 23.040 9.2.3.24: UDHL, then information elements (id, length, data) in any order ---- *)
+Definition ie := (Z * list Z)%type.
+Definition enc_ie (e : ie) : list Z := fst e :: Z.of_nat (length (snd e)) :: snd e.
+Definition enc_ies (l : list ie) : list Z := flat_map enc_ie l.
+Definition concat_ie8 (ref total seq : Z) : ie := (0, [ref; total; seq]).
+Definition concat_ie16 (ref total seq : Z) : ie := (8, [ref / 256; ref mod 256; total; seq]).
+(* an element that is not a concatenation element: application port addressing, special SMS indication, ... *)
+Definition other_ie (e : ie) : Prop :=
+  ~ (fst e = 8 /\ length (snd e) = 4%nat) /\ ~ (fst e = 0 /\ length (snd e) = 3%nat) /\ (length (snd e) <= 255)%nat.
+Definition udh_of (ies : list ie) : list Z := Z.of_nat (length (enc_ies ies)) :: enc_ies ies.
